@@ -1,1 +1,454 @@
 // in-crate Kani harnesses included into the real crate under cfg(kani) (see MANIFEST.hooks)
+// C17: fs.rs — path computation of the file-system backend (`FileSystem::get_object_path`, `get_bucket_path`,
+// `resolve_abs_path`; path-absolutize 3.1.1 / path-dedot 3.1.1 / std::path compiled, not modelled).
+//
+// Property: "The file-system backend never reads, creates, modifies or deletes anything outside its configured
+// root directory, and an operation addressed to one bucket never touches another bucket's objects or the
+// backend's own bookkeeping files - for every bucket name, key, copy source and upload id, including keys
+// containing '..', absolute paths, empty or repeated separators ..."  Only the path COMPUTATION is in reach of
+// this technique (the std::fs / tokio::fs calls are not).
+//
+// Set-up: `FileSystem { root: "/r", .. }` built by struct literal (`FileSystem::new` touches the real file
+// system), buckets "bk" / "b2".
+//
+// MEASURED LIMIT (Kani 0.68 / CBMC 6.11, 10 GB cap): a SYMBOLIC key does not fit.  `get_object_path("bk", k)` with
+// k = 2 symbolic bytes over {'a', '.', '/'} (first byte not '/', unwind 7, UTF-8 validator stubbed): symex 901 s,
+// then out of memory at 10 GB while converting SSA; with unwind 12 and 2 / 4 symbolic bytes: still in symex
+// after 8 min at 3.6 GB; 2 bytes symbolic over {'a', '.'} only (no separator): > 15 min in symex at 5.8 GB, aborted.
+// (All of these were measured WITH Kani's assertion reachability checks, see the note further down; symex
+// time does not depend on them.)  One fully CONCRETE key costs 8 s symex / 2.4 M SAT variables (heap PathBuf /
+// Vec<&OsStr> / OsString / once_cell), each further key in the same harness +6 s / +1.2 M variables.
+// The harnesses below therefore ENUMERATE concrete keys (every key of length 1 and 2 over {'a', '.', '/'} and a
+// selection of longer ones); they are bounded-exhaustive executions of the compiled code, not symbolic proofs.
+//
+// Bookkeeping names (from fs.rs): `.bucket-<b64>.object-<b64>[.upload-<uuid>].metadata.json`,
+// `.bucket-<b64>.object-<b64>.internal.json`, `.upload_id-<uuid>.part-<n>`, `.upload-<uuid>.json`,
+// `.tmp.<n>.internal.part` — all DIRECT children of the root whose name begins with '.'; a valid bucket name
+// begins with a letter or digit, so bucket directories and bookkeeping files cannot collide, and an object path
+// that lies strictly below `/r/<bucket>/` is never a bookkeeping file.  Exact predicate used: the path is a
+// direct child of the root and its name starts with ".bucket-", ".upload_id-", ".upload-" or ".tmp.".
+pub(crate) mod verif_kani_fs {
+    use super::*;
+    use core::mem::forget;
+
+    // ---------------------------------------------------------------------------------------------
+    // stubs (each one is listed in the spec file)
+    // ---------------------------------------------------------------------------------------------
+
+    /// `std::env::current_dir` (path-absolutize / path-dedot read it unconditionally; it only matters for
+    /// paths that begin with "." or "..", which `<bucket>/<key>` and absolute keys never do).  A directory
+    /// different from the root, so that a leak of the cwd into a result would be visible.
+    fn fixed_cwd() -> std::io::Result<PathBuf> {
+        Ok(PathBuf::from("/w"))
+    }
+
+    /// `crate::error::log`: without the `binary` feature it is `if false { .. }`, but the dead branch reaches
+    /// tracing / tracing-error (kani-compiler ICE).  Behaviour-preserving for the library build.
+    fn no_log(_source: &dyn std::error::Error) {}
+
+    /// `std::thread::current::current`: only caller is once_cell's slow path `imp::wait` (another thread is
+    /// initialising path-dedot's `MAIN_SEPARATOR` Lazy); it pulls in the TLS destructor machinery
+    /// (`std::rt::thread_cleanup` -> `catch_unwind`, kani-compiler ICE intrinsics.rs:243).  Never executed in a
+    /// single-threaded harness; reaching it fails the harness, so the stub is sound.
+    fn no_current_thread() -> std::thread::Thread {
+        panic!("verif: thread::current() reached in a single-threaded harness")
+    }
+
+    fn fs_root() -> FileSystem {
+        FileSystem {
+            root: PathBuf::from("/r"),
+            tmp_file_counter: AtomicU64::new(0),
+        }
+    }
+
+    // ---------------------------------------------------------------------------------------------
+    // reference predicates on the text of a result (written from the property, not from the code)
+    // ---------------------------------------------------------------------------------------------
+
+    /// component-wise prefix test on a path text: `p` == `dir`, or `p` starts with `dir` + "/"
+    fn at_or_under(p: &[u8], dir: &[u8]) -> bool {
+        if p.len() < dir.len() {
+            return false;
+        }
+        let mut i = 0;
+        while i < dir.len() {
+            if p[i] != dir[i] {
+                return false;
+            }
+            i += 1;
+        }
+        p.len() == dir.len() || p[dir.len()] == b'/'
+    }
+
+    /// some component of the path text is ".." (a textual prefix test would then say nothing)
+    fn has_dotdot_component(p: &[u8]) -> bool {
+        let n = p.len();
+        let mut i = 0;
+        while i + 1 < n {
+            if p[i] == b'.' && p[i + 1] == b'.' && (i == 0 || p[i - 1] == b'/') && (i + 2 == n || p[i + 2] == b'/') {
+                return true;
+            }
+            i += 1;
+        }
+        false
+    }
+
+    fn starts_with_at(p: &[u8], at: usize, t: &[u8]) -> bool {
+        if p.len() < at + t.len() {
+            return false;
+        }
+        let mut i = 0;
+        while i < t.len() {
+            if p[at + i] != t[i] {
+                return false;
+            }
+            i += 1;
+        }
+        true
+    }
+
+    /// the path is one of the backend's bookkeeping files: a direct child of "/r" whose name starts with
+    /// ".bucket-", ".upload_id-", ".upload-" or ".tmp."
+    fn is_bookkeeping(p: &[u8]) -> bool {
+        if !starts_with_at(p, 0, b"/r/") {
+            return false;
+        }
+        let mut i = 3;
+        while i < p.len() {
+            if p[i] == b'/' {
+                return false; // not a direct child
+            }
+            i += 1;
+        }
+        starts_with_at(p, 3, b".bucket-")
+            || starts_with_at(p, 3, b".upload_id-")
+            || starts_with_at(p, 3, b".upload-")
+            || starts_with_at(p, 3, b".tmp.")
+    }
+
+    /// confinement to the root: strictly below "/r", no ".." left in the text
+    fn confined_to_root(p: &[u8]) -> bool {
+        at_or_under(p, b"/r") && p.len() > 3 && !has_dotdot_component(p)
+    }
+
+    /// confinement to the bucket directory (the directory itself or anything below it), and hence neither
+    /// another bucket's directory nor a bookkeeping file
+    fn confined_to_bucket(p: &[u8], bucket_dir: &[u8]) -> bool {
+        confined_to_root(p) && at_or_under(p, bucket_dir) && !is_bookkeeping(p)
+    }
+
+    /// `get_object_path(bucket, key)` is an error, or its result is confined to the bucket directory
+    fn object_path_in_bucket(fs: &FileSystem, bucket: &str, bucket_dir: &[u8], key: &str) -> bool {
+        let r = fs.get_object_path(bucket, key);
+        let ok = match &r {
+            Ok(p) => confined_to_bucket(p.as_os_str().as_encoded_bytes(), bucket_dir),
+            Err(_) => true,
+        };
+        forget(r);
+        ok
+    }
+
+    /// `get_object_path(bucket, key)` is an error, or its result is confined to the root
+    fn object_path_in_root(fs: &FileSystem, bucket: &str, key: &str) -> bool {
+        let r = fs.get_object_path(bucket, key);
+        let ok = match &r {
+            Ok(p) => confined_to_root(p.as_os_str().as_encoded_bytes()),
+            Err(_) => true,
+        };
+        forget(r);
+        ok
+    }
+
+    fn path_is(r: &Result<PathBuf>, want: &[u8]) -> bool {
+        match r {
+            Ok(p) => {
+                let b = p.as_os_str().as_encoded_bytes();
+                b.len() == want.len() && starts_with_at(b, 0, want)
+            }
+            Err(_) => false,
+        }
+    }
+
+    /// `get_object_path(bucket, key)` is exactly `want`
+    fn object_path_is(fs: &FileSystem, bucket: &str, key: &str, want: &[u8]) -> bool {
+        let r = fs.get_object_path(bucket, key);
+        let ok = path_is(&r, want);
+        forget(r);
+        ok
+    }
+
+    // Harnesses are written out as plain functions (the runner's native playback locates `fn <name>(` in this
+    // file).  2 path computations per harness.
+    //
+    // RUN THESE WITH `--lib -Z unstable-options --no-assertion-reach-checks` (field "extra" of the spec file).
+    // Measured: the runner always asks CBMC for traces (concrete playback); Kani's assertion reachability checks
+    // are deliberately failing assertions, one per reachable check (~3000 here), and each gets a full trace of
+    // this long execution.  kani-driver then needs 9-10 GB to read CBMC's final output (driver RSS 2.3 GB ->
+    // 8.7-9.7 GB at the very end; eight of thirteen 2-4-call harnesses died at the 10 GB cap with "memory
+    // allocation of .. bytes failed" AFTER cbmc had decided all properties, wherever `cover!(true)` was placed).
+    // Without the reachability checks the same harness takes 51-57 s instead of 220-300 s and the driver stays
+    // small.  Nothing is lost: the flag only changes how SUCCESS / UNREACHABLE is reported for passing checks;
+    // the vacuity guard is the `cover!(true)` at the end of each harness.
+
+    // ---------------------------------------------------------------------------------------------
+    // bounded-exhaustive: every key of length 1 and 2 over {'a', '.', '/'}  (".." excluded: it panics, see
+    // c17_finding_fs_key_bucket_parent_panics)
+    // ---------------------------------------------------------------------------------------------
+
+    /// bucket "bk": key "a" maps to exactly /r/bk/a; key "." is an error or confined to /r/bk
+    #[kani::proof]
+    #[kani::unwind(12)]
+    #[kani::stub(std::env::current_dir, fixed_cwd)]
+    #[kani::stub(crate::error::log, no_log)]
+    #[kani::stub(std::thread::current::current, no_current_thread)]
+    pub(crate) fn c17_keys_len1_a() {
+        let fs = fs_root();
+        assert!(object_path_is(&fs, "bk", "a", b"/r/bk/a"), "the plain key does not map to <root>/<bucket>/<key>");
+        assert!(object_path_in_bucket(&fs, "bk", b"/r/bk", "."));
+        kani::cover!(true);
+        forget(fs);
+    }
+
+    /// bucket "bk": key "/" is an error or confined to /r/bk; bucket "b2": key "a" maps to exactly /r/b2/a
+    #[kani::proof]
+    #[kani::unwind(12)]
+    #[kani::stub(std::env::current_dir, fixed_cwd)]
+    #[kani::stub(crate::error::log, no_log)]
+    #[kani::stub(std::thread::current::current, no_current_thread)]
+    pub(crate) fn c17_keys_len1_b() {
+        let fs = fs_root();
+        assert!(object_path_in_bucket(&fs, "bk", b"/r/bk", "/"));
+        assert!(object_path_is(&fs, "b2", "a", b"/r/b2/a"), "the plain key does not map to <root>/<bucket>/<key>");
+        kani::cover!(true);
+        forget(fs);
+    }
+
+    /// bucket "bk", keys "aa", "a.": error or confined to /r/bk
+    #[kani::proof]
+    #[kani::unwind(12)]
+    #[kani::stub(std::env::current_dir, fixed_cwd)]
+    #[kani::stub(crate::error::log, no_log)]
+    #[kani::stub(std::thread::current::current, no_current_thread)]
+    pub(crate) fn c17_keys_len2_a() {
+        let fs = fs_root();
+        assert!(object_path_in_bucket(&fs, "bk", b"/r/bk", "aa"));
+        assert!(object_path_in_bucket(&fs, "bk", b"/r/bk", "a."));
+        kani::cover!(true);
+        forget(fs);
+    }
+
+    /// bucket "bk", keys "a/", ".a": error or confined to /r/bk
+    #[kani::proof]
+    #[kani::unwind(12)]
+    #[kani::stub(std::env::current_dir, fixed_cwd)]
+    #[kani::stub(crate::error::log, no_log)]
+    #[kani::stub(std::thread::current::current, no_current_thread)]
+    pub(crate) fn c17_keys_len2_b() {
+        let fs = fs_root();
+        assert!(object_path_in_bucket(&fs, "bk", b"/r/bk", "a/"));
+        assert!(object_path_in_bucket(&fs, "bk", b"/r/bk", ".a"));
+        kani::cover!(true);
+        forget(fs);
+    }
+
+    /// bucket "bk", keys "./", "/a": error or confined to /r/bk
+    #[kani::proof]
+    #[kani::unwind(12)]
+    #[kani::stub(std::env::current_dir, fixed_cwd)]
+    #[kani::stub(crate::error::log, no_log)]
+    #[kani::stub(std::thread::current::current, no_current_thread)]
+    pub(crate) fn c17_keys_len2_c() {
+        let fs = fs_root();
+        assert!(object_path_in_bucket(&fs, "bk", b"/r/bk", "./"));
+        assert!(object_path_in_bucket(&fs, "bk", b"/r/bk", "/a"));
+        kani::cover!(true);
+        forget(fs);
+    }
+
+    /// bucket "bk", keys "/.", "//": error or confined to /r/bk  ("..", the 9th key of length 2, is the excluded one)
+    #[kani::proof]
+    #[kani::unwind(12)]
+    #[kani::stub(std::env::current_dir, fixed_cwd)]
+    #[kani::stub(crate::error::log, no_log)]
+    #[kani::stub(std::thread::current::current, no_current_thread)]
+    pub(crate) fn c17_keys_len2_d() {
+        let fs = fs_root();
+        assert!(object_path_in_bucket(&fs, "bk", b"/r/bk", "/."));
+        assert!(object_path_in_bucket(&fs, "bk", b"/r/bk", "//"));
+        kani::cover!(true);
+        forget(fs);
+    }
+
+    /// bucket "b2": key "." is an error or confined to /r/b2; the bucket directory is exactly /r/b2
+    #[kani::proof]
+    #[kani::unwind(12)]
+    #[kani::stub(std::env::current_dir, fixed_cwd)]
+    #[kani::stub(crate::error::log, no_log)]
+    #[kani::stub(std::thread::current::current, no_current_thread)]
+    pub(crate) fn c17_keys_b2() {
+        let fs = fs_root();
+        assert!(object_path_in_bucket(&fs, "b2", b"/r/b2", "."));
+        let r = fs.get_bucket_path("b2");
+        assert!(path_is(&r, b"/r/b2"), "the bucket directory is not <root>/<bucket>");
+        forget(r);
+        kani::cover!(true);
+        forget(fs);
+    }
+
+    /// longer keys whose dots stay inside the bucket: "a/..", "./.a": error or confined to /r/bk
+    #[kani::proof]
+    #[kani::unwind(12)]
+    #[kani::stub(std::env::current_dir, fixed_cwd)]
+    #[kani::stub(crate::error::log, no_log)]
+    #[kani::stub(std::thread::current::current, no_current_thread)]
+    pub(crate) fn c17_keys_inner_dots_a() {
+        let fs = fs_root();
+        assert!(object_path_in_bucket(&fs, "bk", b"/r/bk", "a/.."));
+        assert!(object_path_in_bucket(&fs, "bk", b"/r/bk", "./.a"));
+        kani::cover!(true);
+        forget(fs);
+    }
+
+    /// repeated separators / absolute key with dots: "a//a", "/../": error or confined to /r/bk
+    #[kani::proof]
+    #[kani::unwind(12)]
+    #[kani::stub(std::env::current_dir, fixed_cwd)]
+    #[kani::stub(crate::error::log, no_log)]
+    #[kani::stub(std::thread::current::current, no_current_thread)]
+    pub(crate) fn c17_keys_inner_dots_b() {
+        let fs = fs_root();
+        assert!(object_path_in_bucket(&fs, "bk", b"/r/bk", "a//a"));
+        assert!(object_path_in_bucket(&fs, "bk", b"/r/bk", "/../"));
+        kani::cover!(true);
+        forget(fs);
+    }
+
+    /// ROOT confinement only (what holds for keys that climb out of the bucket): "../a", "../../a" never leave /r
+    /// and never yield /r itself or a text with ".."
+    #[kani::proof]
+    #[kani::unwind(14)]
+    #[kani::stub(std::env::current_dir, fixed_cwd)]
+    #[kani::stub(crate::error::log, no_log)]
+    #[kani::stub(std::thread::current::current, no_current_thread)]
+    pub(crate) fn c17_keys_climbing_a() {
+        let fs = fs_root();
+        assert!(object_path_in_root(&fs, "bk", "../a"));
+        assert!(object_path_in_root(&fs, "bk", "../../a"));
+        kani::cover!(true);
+        forget(fs);
+    }
+
+    /// ROOT confinement only: "a/../../a", ".././a"
+    #[kani::proof]
+    #[kani::unwind(14)]
+    #[kani::stub(std::env::current_dir, fixed_cwd)]
+    #[kani::stub(crate::error::log, no_log)]
+    #[kani::stub(std::thread::current::current, no_current_thread)]
+    pub(crate) fn c17_keys_climbing_b() {
+        let fs = fs_root();
+        assert!(object_path_in_root(&fs, "bk", "a/../../a"));
+        assert!(object_path_in_root(&fs, "bk", ".././a"));
+        kani::cover!(true);
+        forget(fs);
+    }
+
+    // ---------------------------------------------------------------------------------------------
+    // findings
+    // ---------------------------------------------------------------------------------------------
+
+    /// FINDING fs_key_crosses_bucket: bucket "bk", key "../b2/x" must be refused or stay below /r/bk
+    /// (the virtual root confines to /r only: the result is /r/b2/x, an object of bucket "b2")
+    #[kani::proof]
+    #[kani::unwind(14)]
+    #[kani::stub(std::env::current_dir, fixed_cwd)]
+    #[kani::stub(crate::error::log, no_log)]
+    #[kani::stub(std::thread::current::current, no_current_thread)]
+    pub(crate) fn c17_finding_fs_key_crosses_bucket() {
+        let fs = fs_root();
+        let r = fs.get_object_path("bk", "../b2/x");
+        let ok = match &r {
+            Ok(p) => confined_to_bucket(p.as_os_str().as_encoded_bytes(), b"/r/bk"),
+            Err(_) => true,
+        };
+        assert!(ok, "key \"../b2/x\" of bucket \"bk\" resolves outside /r/bk");
+        kani::cover!(true);
+        forget(r);
+        forget(fs);
+    }
+
+    /// FINDING fs_key_crosses_bucket (bookkeeping witness): bucket "bk", key "../.tmp.0.internal.part" is the
+    /// backend's own temporary file of the first write (`prepare_file_write`, counter 0)
+    #[kani::proof]
+    #[kani::unwind(30)]
+    #[kani::stub(std::env::current_dir, fixed_cwd)]
+    #[kani::stub(crate::error::log, no_log)]
+    #[kani::stub(std::thread::current::current, no_current_thread)]
+    pub(crate) fn c17_finding_fs_key_crosses_bucket_bookkeeping() {
+        let fs = fs_root();
+        let r = fs.get_object_path("bk", "../.tmp.0.internal.part");
+        let ok = match &r {
+            Ok(p) => !is_bookkeeping(p.as_os_str().as_encoded_bytes()),
+            Err(_) => true,
+        };
+        assert!(ok, "key \"../.tmp.0.internal.part\" of bucket \"bk\" resolves to a bookkeeping file");
+        kani::cover!(true);
+        forget(r);
+        forget(fs);
+    }
+
+    /// FINDING fs_key_crosses_bucket (absolute-key witness): bucket "bk", key "/r/b2/x" (an absolute path below
+    /// the root replaces the bucket prefix in `Path::join`) must be refused or stay below /r/bk
+    #[kani::proof]
+    #[kani::unwind(14)]
+    #[kani::stub(std::env::current_dir, fixed_cwd)]
+    #[kani::stub(crate::error::log, no_log)]
+    #[kani::stub(std::thread::current::current, no_current_thread)]
+    pub(crate) fn c17_finding_fs_key_crosses_bucket_absolute() {
+        let fs = fs_root();
+        let r = fs.get_object_path("bk", "/r/b2/x");
+        let ok = match &r {
+            Ok(p) => confined_to_bucket(p.as_os_str().as_encoded_bytes(), b"/r/bk"),
+            Err(_) => true,
+        };
+        assert!(ok, "key \"/r/b2/x\" of bucket \"bk\" resolves outside /r/bk");
+        kani::cover!(true);
+        forget(r);
+        forget(fs);
+    }
+
+    /// FINDING fs_key_crosses_bucket (root witness): bucket "bk", key "/r" yields the root directory itself
+    #[kani::proof]
+    #[kani::unwind(12)]
+    #[kani::stub(std::env::current_dir, fixed_cwd)]
+    #[kani::stub(crate::error::log, no_log)]
+    #[kani::stub(std::thread::current::current, no_current_thread)]
+    pub(crate) fn c17_finding_fs_key_is_root() {
+        let fs = fs_root();
+        let r = fs.get_object_path("bk", "/r");
+        let ok = match &r {
+            Ok(p) => confined_to_root(p.as_os_str().as_encoded_bytes()),
+            Err(_) => true,
+        };
+        assert!(ok, "key \"/r\" of bucket \"bk\" resolves to the root directory itself");
+        kani::cover!(true);
+        forget(r);
+        forget(fs);
+    }
+
+    /// FINDING fs_key_bucket_parent_panics: bucket "bk", key ".." — `<bucket>/..` normalises to the empty path;
+    /// path-dedot then fails `debug_assert!(tokens_length > 0)` (release: `tokens_length - 1` wraps and
+    /// `OsString::with_capacity` panics).  The property demands an error (or a confined path), not a panic in
+    /// the request handler.
+    #[kani::proof]
+    #[kani::unwind(12)]
+    #[kani::stub(std::env::current_dir, fixed_cwd)]
+    #[kani::stub(crate::error::log, no_log)]
+    #[kani::stub(std::thread::current::current, no_current_thread)]
+    pub(crate) fn c17_finding_fs_key_bucket_parent_panics() {
+        let fs = fs_root();
+        let r = fs.get_object_path("bk", "..");
+        kani::cover!(true);
+        forget(r);
+        forget(fs);
+    }
+}
